@@ -346,7 +346,75 @@ def check(chk, repo, tier):
                "get_input(ctx) and reset the flag before anything else runs",
                repo.mod("elements").rel, knode.lineno,
                sample={"template": v[0][:90]})
-    chk.floor("templates setting use_top_input", n_set, 1)
+    # the explicit read `?` as a transition system of its own: its template
+    # (however it is written) is run on the same abstract states with the
+    # flag down, as it is between two elements; it must push input number
+    # cursor mod n of the *program's* scope, advance that cursor only, and
+    # leave the flag down
+    from ..pe import Env, ModuleEnv  # noqa: PLC0415
+    el_mod = it.module("vyxal.elements")
+    n_q = 0
+    for key in ["?"] + sorted(k for k, v in elems.items() if k != "?"
+                              and isinstance(v, tuple)
+                              and isinstance(v[0], str)
+                              and "use_top_input" in v[0]):
+        v = elems.get(key)
+        if not (isinstance(v, tuple) and isinstance(v[0], str)):
+            raise AnalysisError(f"anchor vanished: element table entry {key!r}")
+        try:
+            code = ast.parse(v[0]).body
+        except SyntaxError:
+            continue  # C02 reports templates that do not parse
+        badq = None
+        for depth in (1, 2, 3):
+            for lens in _it.product(range(0, 3), repeat=depth):
+                curs_ranges = [range(0, 2 * ln + 1) if ln else range(0, 1)
+                               for ln in lens]
+                for curs in _it.product(*curs_ranges):
+                    scopes = [([f"in{d}_{i}" for i in range(ln)], c)
+                              for d, (ln, c) in enumerate(zip(lens, curs))]
+                    for sk in _it.combinations_with_replacement(
+                            kinds, depth - 1):
+                        for online in (False, True):
+                            ctx = fresh(scopes, False, sk, online)
+                            env = Env(ModuleEnv(el_mod))
+                            stack = ["below"]
+                            env.vars["stack"] = stack
+                            env.vars["ctx"] = ctx
+                            n_q += 1
+                            it.steps = 0
+                            try:
+                                it.exec_block(code, env, el_mod)
+                            except (PRaise, Exception) as exc:  # noqa: BLE001
+                                badq = badq or (scopes, "raises " + repr(exc))
+                                continue
+                            lst, cur = scopes[0]
+                            want_after = [(list(l), c) for l, c in scopes]
+                            if lst:
+                                want = lst[cur % len(lst)]
+                                want_after[0] = (list(lst), cur + 1)
+                            else:
+                                want = 0
+                            after = [(list(x[0]), x[1])
+                                     for x in ctx.d["inputs"]]
+                            if env.vars["stack"] != ["below", want]:
+                                badq = badq or (scopes, "stack " + repr(
+                                    env.vars["stack"]), "expected " + repr(
+                                    ["below", want]), "scopes " + ",".join(sk))
+                            elif after != want_after:
+                                badq = badq or (scopes, "cursors " + repr(
+                                    after), "expected " + repr(want_after))
+                            elif ctx.d["use_top_input"] is not False:
+                                badq = badq or (scopes, "flag left set")
+        chk.ob("C11.explicit-read-transition", f"elements[{key!r}]",
+               badq is None,
+               "the explicit read must push input number cursor mod n of the "
+               "program's own scope (0 when the program has no input), "
+               "advance that cursor only and leave the explicit-read flag "
+               f"down: {badq}", repo.mod("elements").rel,
+               witness=repr(badq) if badq else None,
+               sample={"abstract states": n_q})
+    chk.floor("explicit-read states", n_q, 500)
     for modname in ("elements", "helpers", "main", "LazyList", "transpile"):
         m = repo.mod(modname)
         for n in ast.walk(m.tree):
@@ -362,12 +430,33 @@ def check(chk, repo, tier):
 
     # ---- (S) scopes pushed by the lambda / function templates ----------------------------------
     TF = repo.mod("transpile").rel
-    for label, struct in (
-            ("Lambda", gen.struct("Lambda", 2, Hole("body"))),
-            ("FunctionDef", gen.struct("FunctionDef", "f", ["2", "x"],
-                                       Hole("body")))):
-        text = gen.transpile_ast([struct], 0)
-        tree = ast.parse(text)
+    # every parameter shape is a template instance of its own (a template
+    # may branch on the shape): none, numeric, zero, named, variadic, mixed
+    for label, shape, struct in (
+            ("Lambda", "", gen.struct("Lambda", 2, Hole("body"))),
+            ("Lambda", " (arity 0)", gen.struct("Lambda", 0, Hole("body"))),
+            ("Lambda", " (arity 1)", gen.struct("Lambda", 1, Hole("body"))),
+            ("FunctionDef", "", gen.struct("FunctionDef", "f", ["2", "x"],
+                                           Hole("body"))),
+            ("FunctionDef", " (no parameters)",
+             gen.struct("FunctionDef", "f", [], Hole("body"))),
+            ("FunctionDef", " (0)",
+             gen.struct("FunctionDef", "f", ["0"], Hole("body"))),
+            ("FunctionDef", " (1)",
+             gen.struct("FunctionDef", "f", ["1"], Hole("body"))),
+            ("FunctionDef", " (named)",
+             gen.struct("FunctionDef", "f", ["x"], Hole("body"))),
+            ("FunctionDef", " (variadic)",
+             gen.struct("FunctionDef", "f", ["*"], Hole("body")))):
+        try:
+            text = gen.transpile_ast([struct], 0)
+            tree = ast.parse(text)
+        except Exception as exc:  # noqa: BLE001
+            if shape:
+                chk.info("C11.scope-push", f"{label} template{shape}",
+                         f"shape not instantiated: {exc}")
+                continue
+            raise
         pushes = [n for n in ast.walk(tree) if isinstance(n, ast.Call)
                   and norm(ast.unparse(n.func)) == "ctx.inputs.append"]
         ok = len(pushes) == 1
@@ -420,7 +509,7 @@ def check(chk, repo, tier):
                                f"of the live `{base}`: it is only evaluated "
                                "at the first implicit read, after the body "
                                "has already popped the arguments")
-        chk.ob("C11.scope-push", f"{label} template", ok, why, TF,
+        chk.ob("C11.scope-push", f"{label} template{shape}", ok, why, TF,
                sample={"structure": label})
 
     input_context_threaded(chk, repo, gen)
